@@ -153,18 +153,65 @@ impl<'a> Ctx<'a> {
     }
 }
 
+/// gap predicate of the recorded merge-replay finding: the folder's log holds an event the access point ignores but
+/// the reducer applies (create of an id that is present, update of an id that was deleted)
+pub async fn log_has_inapplicable_event(a: &LocalAccount, id: &VaultId) -> bool {
+    use futures::StreamExt; use sos_core::events::{EventLog, WriteEvent};
+    let Ok(log) = a.folder_log(id).await else { return false };
+    let l = log.read().await;
+    let st = l.event_stream(false).await; futures::pin_mut!(st);
+    let mut present = std::collections::BTreeSet::new(); let mut bad = false;
+    while let Some(r) = st.next().await { if let Ok((_, ev)) = r { match ev {
+        WriteEvent::CreateSecret(i, _) => { if !present.insert(i) { bad = true; } }
+        WriteEvent::UpdateSecret(i, _) => { if !present.contains(&i) { bad = true; present.insert(i); } }
+        WriteEvent::DeleteSecret(i) => { present.remove(&i); }
+        _ => {} } } }
+    bad
+}
+
 /// compare all views of all folders of one device
 async fn check_views(cx: &mut Ctx<'_>, a: &mut LocalAccount, live: &BTreeMap<VaultId, BTreeMap<SecretId, String>>, who: &str) {
     let folders = match a.list_folders().await { Ok(f) => f, Err(e) => { cx.fail("c01-list-folders-error", &e.to_string()); return; } };
     for s in folders {
         let id = *s.id();
-        let sv = match served(a, &id).await { Ok(v) => v, Err(e) => { cx.fail(&format!("c01-served-view-error-{who}"), &e); continue; } };
+        let gap = if log_has_inapplicable_event(a, &id).await { "-log-has-update-of-deleted-or-create-of-present" } else { "" };
+        if std::env::var("FDEBUG2").is_ok() {
+            use sos_vault::SecretAccess;
+            let vp = a.paths().vault_path(&id);
+            let file_ids: Vec<String> = match std::fs::read(&vp) { Ok(b) => { let v: Result<sos_vault::Vault, _> = sos_core::decode(&b).await; v.map(|v| v.keys().map(|k| k.to_string()[..8].to_string()).collect()).unwrap_or(vec!["<undecodable>".into()]) } Err(_) => vec!["<no file>".into()] };
+            let mem: Vec<String> = { let f = a.folder(&id).await.unwrap(); let ap = f.access_point(); let ap = ap.lock().await; ap.vault().keys().map(|k| k.to_string()[..8].to_string()).collect() };
+            if file_ids != mem {
+                eprintln!("FDEBUG2 after {:?}: folder {} file={file_ids:?} memory={mem:?}", cx.script.last(), &id.to_string()[..8]);
+                let _ = std::fs::create_dir_all("/tmp/vault_dbg"); let _ = std::fs::copy(&vp, format!("/tmp/vault_dbg/{}.vault", cx.script.len()));
+                // try the mirror's delete directly on a copy
+                if let Some(last) = cx.script.last() { if let Some(idtxt) = last.strip_prefix("delete ") { if let Ok(sid) = idtxt.parse::<SecretId>() {
+                    let copy = format!("/tmp/vault_dbg/{}-probe.vault", cx.script.len()); let _ = std::fs::copy(&vp, &copy);
+                    use sos_vault::EncryptedEntry;
+                    let mut wtr = sos_filesystem::VaultFileWriter::<sos_backend::Error>::new(&copy);
+                    let r = wtr.delete_secret(&sid).await;
+                    let after: Vec<String> = match std::fs::read(&copy) { Ok(b) => { let v: Result<sos_vault::Vault, _> = sos_core::decode(&b).await; v.map(|v| v.keys().map(|k| k.to_string()[..8].to_string()).collect()).unwrap_or(vec!["<undecodable>".into()]) } Err(_) => vec![] };
+                    eprintln!("FDEBUG2 direct mirror delete on a copy -> {:?}; rows after = {after:?}", r.map(|x| x.is_some()));
+                } } }
+            }
+        }
+        let sv = match served(a, &id).await { Ok(v) => v, Err(e) => {
+            if std::env::var("FDEBUG").is_ok() {
+                use sos_vault::SecretAccess;
+                let vp = a.paths().vault_path(&id);
+                let file_ids: Vec<String> = match std::fs::read(&vp) { Ok(b) => { let v: Result<sos_vault::Vault, _> = sos_core::decode(&b).await; v.map(|v| v.keys().map(|k| k.to_string()[..8].to_string()).collect()).unwrap_or_default() } Err(_) => vec![] };
+                let raw_rows: Vec<String> = { let mut out = vec![]; if let (Ok(b), Ok(off)) = (std::fs::read(&vp), sos_vault::Header::read_content_offset(&vp).await) { let mut p = off as usize; while p + 20 <= b.len() { let n = u32::from_le_bytes([b[p], b[p+1], b[p+2], b[p+3]]) as usize; out.push(hex::encode(&b[p+4..p+8])); p += n + 8; } } out };
+                let listed: Vec<String> = a.list_secret_ids(&id).await.unwrap_or_default().iter().map(|k| k.to_string()[..8].to_string()).collect();
+                let mem: Vec<String> = { let f = a.folder(&id).await.unwrap(); let ap = f.access_point(); let ap = ap.lock().await; ap.vault().keys().map(|k| k.to_string()[..8].to_string()).collect() };
+                let rp = replayed(a, &id).await.map(|v| v.secrets.iter().map(|x| x.0.to_string()[..8].to_string()).collect::<Vec<_>>());
+                eprintln!("FDEBUG served error {e}: file_ids(decoded map)={file_ids:?} raw_rows={raw_rows:?} listed={listed:?} memory={mem:?} replay={rp:?}");
+            }
+            cx.fail(&format!("c01-served-view-error-{who}{gap}"), &e); continue; } };
         // C01: read-your-writes against the harness's own record of what was last written
         if let Some(expect) = live.get(&id) {
             let got: BTreeMap<SecretId, String> = sv.secrets.iter().cloned().collect();
             if &got != expect {
                 let class = if got.len() != expect.len() { "c01-listing-differs-from-live-ids" } else { "c01-read-differs-from-last-write" };
-                cx.fail(&format!("{class}-{who}"), &format!("folder {id}: served {} secrets, expected {}", got.len(), expect.len()));
+                cx.fail(&format!("{class}-{who}{gap}"), &format!("folder {id}: served {} secrets, expected {}", got.len(), expect.len()));
             }
         }
         // C02: replay of the log equals the served folder
@@ -657,4 +704,58 @@ pub fn run(cli: &Cli) {
         after every step: served view vs harness record (C01), replay of the log via detached_view vs served (C02), search index vs live secrets and counters (C20), compaction invariants (C12); \\
         the default folder's operations are replayed on the Lean Folder model (vault and replay views must match)");
     rep.write(&cli.out);
+}
+
+/// directed probe (debugging aid): replays the history of a failing thorough case step by step
+pub fn probe(_cli: &Cli) {
+    let rt = tokio::runtime::Builder::new_multi_thread().worker_threads(2).enable_all().build().unwrap();
+    rt.block_on(async {
+        let skip: Vec<String> = std::env::var("SKIP").unwrap_or_default().split(',').map(|x| x.to_string()).collect();
+        let on = |n: &str| !skip.iter().any(|x| x == n);
+        let w = World::new(2, "fs").await.unwrap();
+        let key: AccessKey = w.password.clone().into();
+        let default = { let a = w.devices[0].lock().await; *a.default_folder().await.unwrap().id() };
+        let mut rng = Rng::new(7);
+        let o = |f: VaultId| AccessOptions { folder: Some(f), ..Default::default() };
+        async fn file_rows(a: &LocalAccount, id: &VaultId) -> usize { let b = std::fs::read(a.paths().vault_path(id)).unwrap(); let v: sos_vault::Vault = sos_core::decode(&b).await.unwrap(); v.len() }
+        async fn fresh(w: &World, key: &AccessKey) { let (t, id) = { let a = w.devices[0].lock().await; (a.backend_target().await, *a.account_id()) }; let mut f = LocalAccount::new_unauthenticated(id, t).await.unwrap(); f.sign_in(key).await.unwrap(); let _ = f.sign_out().await; }
+        async fn report(w: &World, default: &VaultId, name: &str) { let a = w.devices[0].lock().await; let listed = a.list_secret_ids(default).await.unwrap().len(); let mem = { use sos_vault::SecretAccess; let f = a.folder(default).await.unwrap(); let ap = f.access_point(); let ap = ap.lock().await; ap.vault().len() }; println!("{:<28} file rows {} memory {} listed {}", name, file_rows(&a, default).await, mem, listed); }
+        let (m, s) = mk_secret(&mut rng, "a"); let mut ida = None;
+        { let mut a = w.devices[0].lock().await; ida = Some(a.create_secret(m, s, o(default)).await.unwrap().id); }
+        let (m, s) = mk_secret(&mut rng, "b"); let idb = { let mut a = w.devices[0].lock().await; a.create_secret(m, s, o(default)).await.unwrap().id };
+        { let mut a = w.devices[0].lock().await; if on("describe") { a.set_folder_description(&default, "description 3").await.unwrap(); } if on("compact1") { a.compact_folder(&default).await.unwrap(); } }
+        let (m, s) = mk_secret(&mut rng, "c"); let _idc = { let mut a = w.devices[0].lock().await; a.create_secret(m, s, o(default)).await.unwrap().id };
+        fresh(&w, &key).await;
+        { let mut a = w.devices[0].lock().await; a.delete_secret(&idb, o(default)).await.unwrap(); if on("compact2") { a.compact_folder(&default).await.unwrap(); a.compact_folder(&default).await.unwrap(); } }
+        let (m, s) = mk_secret(&mut rng, "d"); let idd = { let mut a = w.devices[0].lock().await; a.create_secret(m, s, o(default)).await.unwrap().id };
+        let f1 = { let mut a = w.devices[0].lock().await; *a.create_folder(NewFolderOptions::new("f1".into())).await.unwrap().folder.id() };
+        if on("fresh") { fresh(&w, &key).await; }
+        let _ = w.sync(0).await; let _ = w.sync(1).await;
+        let (m, s) = mk_secret(&mut rng, "r"); let idr = { let mut b = w.devices[1].lock().await; b.create_secret(m, s, o(default)).await.unwrap().id };
+        for k in [0usize, 1, 1, 0, 0] { let r = w.sync(k).await; println!("sync d{k} {:?}", r); }
+        report(&w, &default, "after syncs").await;
+        if on("delfolder") { let mut a = w.devices[0].lock().await; a.delete_folder(&f1).await.unwrap(); } report(&w, &default, "delete_folder f1").await;
+        if on("flags") { let mut a = w.devices[0].lock().await; a.update_folder_flags(&default, VaultFlags::from_bits(513).unwrap()).await.unwrap(); } report(&w, &default, "flags 513").await;
+        if on("flags") { let mut a = w.devices[0].lock().await; a.update_folder_flags(&default, VaultFlags::from_bits(1).unwrap()).await.unwrap(); } report(&w, &default, "flags 1").await;
+        let (m, s) = mk_secret(&mut rng, "r2");
+        if on("update") { let mut a = w.devices[0].lock().await; a.update_secret(&idr, m, Some(s), o(default)).await.unwrap(); } report(&w, &default, "update r").await;
+        fresh(&w, &key).await;
+        if on("f2") { let mut a = w.devices[0].lock().await; a.create_folder(NewFolderOptions::new("f2".into())).await.unwrap(); } report(&w, &default, "create_folder f2").await;
+        if on("f3") { let mut a = w.devices[0].lock().await; a.create_folder(NewFolderOptions::new("f3".into())).await.unwrap(); } report(&w, &default, "create_folder f3").await;
+        {
+            use sos_vault::EncryptedEntry;
+            let a = w.devices[0].lock().await;
+            let vp = a.paths().vault_path(&default);
+            let wtr = sos_filesystem::VaultFileWriter::<sos_backend::Error>::new(&vp);
+            let r = wtr.read_secret(&idd).await;
+            println!("before delete: mirror read_secret(d) -> {:?}; path {}", r.map(|x| x.is_some()), vp.display());
+            let b = std::fs::read(&vp).unwrap();
+            let off = sos_vault::Header::read_content_offset(&vp).await.unwrap() as usize;
+            let mut p = off; let mut rows = vec![];
+            while p + 20 <= b.len() { let n = u32::from_le_bytes([b[p], b[p+1], b[p+2], b[p+3]]) as usize; let tail = if p + 8 + n <= b.len() { u32::from_le_bytes([b[p+4+n], b[p+5+n], b[p+6+n], b[p+7+n]]) as usize } else { 0 }; rows.push((p, n, tail, hex::encode(&b[p+4..p+8]))); p += n + 8; }
+            println!("file len {} content offset {} rows (pos, len, trailing len, id): {:?}; id d = {}", b.len(), off, rows, &idd.to_string()[..8]);
+        }
+        { let mut a = w.devices[0].lock().await; a.delete_secret(&idd, o(default)).await.unwrap(); } report(&w, &default, "delete d").await;
+        let _ = ida;
+    });
 }
